@@ -26,6 +26,51 @@ import numpy as np
 
 np.seterr(all='ignore')
 
+# scipy 1.18.1 in this sandbox segfaults in scipy.linalg.solve(a, b, overwrite_a=True, overwrite_b=True, check_finite=False)
+# when `a` is F-contiguous and numerically singular (found by the C06 history fuzzer: a MALS micro system of a singular
+# operator).  A crash would take the whole check down, so rank-deficient systems are answered with the LinAlgError that a
+# healthy LAPACK driver raises.  Third-party defect, not a property of scikit_tt (C07 assumes solvable micro systems).
+import scipy.linalg as _sl
+_scipy_solve = _sl.solve
+
+
+def _guarded_solve(a, b, *args, **kw):
+    # only the crashing call pattern is touched: overwrite flags + an exactly zero pivot (what LAPACK gesv reports as info > 0)
+    if kw.get('overwrite_a') and kw.get('overwrite_b'):
+        try:
+            aa = np.array(a, copy=True)
+            if aa.ndim == 2 and aa.shape[0] == aa.shape[1] and aa.shape[0] > 0 and np.all(np.isfinite(aa)):
+                lu, _piv = _sl.lu_factor(aa, check_finite=False)
+                if np.any(np.diag(lu) == 0):
+                    raise np.linalg.LinAlgError('singular matrix (harness guard against a scipy crash)')
+        except np.linalg.LinAlgError:
+            raise
+        except Exception:
+            pass
+    return _scipy_solve(a, b, *args, **kw)
+
+
+_sl.solve = _guarded_solve
+
+
+def guard_expm(module):
+    """scipy.sparse.linalg.expm_multiply does not terminate in useful time on non-finite or astronomically large input (met by the
+    C06 fuzzer: krylov on a state the Lanczos recurrence breaks down on, 1/beta ~ 1e14).  Modules that imported it by name get a version that raises instead."""
+    orig = module.expm_multiply
+    if getattr(orig, '_verif_guard', False):
+        return
+
+    def safe(A, B, *a, **k):
+        try:
+            ok = bool(np.all(np.isfinite(np.asarray(A))) and np.all(np.isfinite(np.asarray(B))) and float(np.max(np.abs(np.asarray(A)), initial=0.0)) < 1e9)
+        except Exception:
+            ok = True
+        if not ok:
+            raise FloatingPointError('non-finite or huge (> 1e9) input to expm_multiply (harness guard: scipy needs about |A| steps)')
+        return orig(A, B, *a, **k)
+    safe._verif_guard = True
+    module.expm_multiply = safe
+
 ALLOWED_AXIOMS = {
     # declared by Coq's standard library; named in DESIGN.md section 7
     'ClassicalDedekindReals.sig_forall_dec', 'ClassicalDedekindReals.sig_not_dec',
